@@ -42,6 +42,30 @@ _WHERE = {
             "Trusted: TLC/SANY, AfterCallSpec/NormName in the spec, the projection list(tag.attrs.items()), CPython.",
             "TLA+ spec (Attr/AttrOps) model-checked with TLC; TLC-generated histories replayed into the code; recorded "
             "histories validated by TLC trace spec (AttrTrace)"),
+    "C05": ("layout", "C05",
+            "TLC enumerates every ordered tree and top-level list up to the bound over the eight node kinds and checks "
+            "that the transcribed sibling state machine never puts a layout token inside or between inline content; "
+            "each enumerated tree and seeded random trees (to 60 nodes, depth 8) are rendered by the real library with "
+            "several indent/eol/add_ws settings and TLC judges the scanned token sequence against the same predicates.",
+            "Trusted: TLC/SANY, the predicates C05i-iii and Inline() in spec/RenderOps.tla, the regular-expression token "
+            "scanner, CPython.",
+            "TLA+ spec (Render/RenderOps) model-checked with TLC; TLC-enumerated trees replayed into the code; recorded "
+            "token sequences validated by TLC trace spec (RenderTrace)"),
+    "C06": ("layout", "C06",
+            "TLC checks on every in-scope tree up to the bound that the documented line-and-indent rule (Lines/Flat) and "
+            "the transcribed sibling state machine produce the same tokens for indent 0/2 and both eol settings; the "
+            "real library's output for every enumerated tree and for seeded random trees (indent 0..5, four eol "
+            "strings, text ending in line breaks) is judged by TLC against the documented rule.",
+            "Trusted: TLC/SANY, Lines/Flat/InScope in spec/RenderOps.tla, the token scanner, CPython.",
+            "TLA+ spec (Render/RenderOps) model-checked with TLC; TLC-enumerated trees replayed into the code; recorded "
+            "token sequences validated by TLC trace spec (RenderTrace)"),
+    "C07": ("layout", "C07",
+            "TLC enumerates trees with metadata nodes at every subset of positions and checks Render(tree) = "
+            "Render(Strip(tree)) on the model; each tree is built twice for the real library (with and without its "
+            "metadata nodes, of three kinds) and TLC compares the two scanned token sequences.",
+            "Trusted: TLC/SANY, the token scanner, the harness building the stripped tree (checked by TLC against Strip), CPython.",
+            "TLA+ spec (Render/RenderOps) model-checked with TLC; TLC-enumerated trees replayed into the code; recorded "
+            "token sequences validated by TLC trace spec (RenderTrace)"),
 }
 
 NOT_YET = {}
